@@ -136,6 +136,12 @@ class BaseComponent(Manager):
         This method fires a :class:`~.events.Registered` event to inform
         other components in the tree about the new member.
         """
+        if self.unregister_pending:
+            # unregister() followed by register(): the component is being
+            # moved. The unregistration under way completes now, while
+            # this component still knows the parent it is leaving
+            self._do_prepare_unregister_complete(None, None)
+
         if parent is not self:
             # (may refuse, see registerChild(): nothing has been changed then)
             parent.registerChild(self)
